@@ -21,8 +21,8 @@ IS_CHECK = "move_generation::is_check"
 CAN_CASTLE = "move_generation::can_castle"
 GEN_ROOT = "move_generation::generate_moves"
 
-St = namedtuple("St", "swaps last_move promo ep_resolved ep_cleared gate sqw")
-FRESH = St(0, False, False, False, False, False, 0)
+St = namedtuple("St", "swaps last_move promo ep_resolved ep_cleared gate sqw pub")
+FRESH = St(0, False, False, False, False, False, 0, 0)
 
 
 def cone(facts, root):
@@ -124,6 +124,11 @@ class Site:
                 elif c == MOVE_PIECE:
                     if s.gate == "is_check":
                         s = s._replace(gate=False)
+            elif k == "moved":
+                if ev[1] and ev[1].endswith(PUSH_SUFFIX):
+                    if s.pub >= 1:
+                        self.an.double_publish.add((self, loc))
+                    s = s._replace(pub=min(s.pub + 1, 2))
             elif k == "write":
                 f = ev[1][0]
                 if f == "last_move":
@@ -178,6 +183,7 @@ class SuccessorAnalysis:
         self.ep_sets = set()
         self.ep_set_unclear = set()
         self.second_square_write = set()
+        self.double_publish = set()
         self.results = {}   # site -> (before, at_return)
         self.delegate_inits = {}  # callee -> set of states at hand-over
         self._run()
@@ -335,6 +341,17 @@ def r2_3(ctx):
     """At every publish the en-passant target has been resolved (cleared or set for this move)."""
     n = _publish_rule(ctx, lambda s: s.ep_resolved, "ep_resolved")
     ctx.floor("publishes", n, 4)
+
+
+def r1_7(ctx):
+    """No successor object is published twice (no duplicated move in the generated list)."""
+    an = get(ctx)
+    for site, loc in sorted(an.double_publish, key=lambda x: (x[0].name, x[1])):
+        ctx.ob("%s:published-twice" % site.name, False, site.b.where(loc),
+               "`%s`: this successor (created at %s) can already have been pushed on this path: the move appears twice in the list" % (site.b.text_at(loc)[:70], site.b.where(site.loc)))
+    n = sum(len(s.publishes) for s in an.sites)
+    ctx.ob("each-successor-published-once", not an.double_publish, "", "%d publish sites; no object is pushed twice on any path" % n, nontrivial=False)
+    ctx.floor("publish sites", n, 4)
 
 
 def r5_2_once(ctx):
